@@ -14,6 +14,7 @@ import threading
 import types
 import warnings
 from dataclasses import dataclass
+from typing import ClassVar
 from pathlib import Path
 
 os.environ.setdefault("VGI_RPC_SHM_MIN_BATCH_BYTES", "64")     # documented override: let small batches take the shm route
@@ -208,6 +209,46 @@ class XState(ExchangeState):
         _run_step(self.sid, self.x, self.echo, self.pos, a, out, ctx)
 
 
+@dataclass
+class CallB(ArrowSerializableDataclass):
+    """Call state: the immutable half of a stream (which script, which arguments)."""
+
+    sid: int
+    echo: str
+
+
+@dataclass
+class PStateB(ProducerState):
+    """Producer whose immutable half lives in call state; the framework attaches it through bind_call_state()."""
+
+    CALL_STATE_TYPE: ClassVar[type] = CallB
+    x: int
+    pos: int = 0
+
+    def bind_call_state(self, call_state) -> None:
+        self._call = call_state
+
+    def produce(self, out: OutputCollector, ctx: CallContext) -> None:
+        self.pos += 1
+        _run_step(self._call.sid, self.x, self._call.echo, self.pos, 0, out, ctx)
+
+
+@dataclass
+class XStateB(ExchangeState):
+    CALL_STATE_TYPE: ClassVar[type] = CallB
+    x: int
+    pos: int = 0
+
+    def bind_call_state(self, call_state) -> None:
+        self._call = call_state
+
+    def exchange(self, input: AnnotatedBatch, out: OutputCollector, ctx: CallContext) -> None:  # noqa: A002
+        self.pos += 1
+        md = (input.custom_metadata or {}).get(b"in")
+        a = input_code(input.batch.num_rows, md.decode() if md is not None else None)
+        _run_step(self._call.sid, self.x, self._call.echo, self.pos, a, out, ctx)
+
+
 def _body_logs(sid: int, x: int, echo: str, ctx: CallContext) -> None:
     for p, lvl in enumerate(REG[sid]["ilogs"], 1):
         ctx.client_log(Level[lvl], log_text(x, 0, p, echo), **log_extras(x, 0, p))
@@ -232,6 +273,11 @@ def _init(sid: int, x: int, tag: str, opt, ctx: CallContext):
         raise ERR_CLASSES[m["ierr"]](*err_args(m["ierr"], x, 0, echo))
     schema = OUT_ONE if m["cols"] == "one" else OUT_ZERO
     hdr = hdr_value(m["hdr"], x, echo) if m["hdr"] != "none" else None
+    if m.get("cs"):
+        call = CallB(sid=sid, echo=echo)
+        if m["kind"] == "prod":
+            return Stream(output_schema=schema, state=PStateB(x=x), header=hdr, call_state=call)
+        return Stream(output_schema=schema, state=XStateB(x=x), input_schema=INP, header=hdr, call_state=call)
     if m["kind"] == "prod":
         return Stream(output_schema=schema, state=PState(sid=sid, x=x, echo=echo), header=hdr)
     return Stream(output_schema=schema, state=XState(sid=sid, x=x, echo=echo), input_schema=INP, header=hdr)
@@ -265,21 +311,26 @@ def build_program(methods: list[dict], first_sid: int | None = None):
         sid = first_sid + i
         REG[sid] = m
         n = f"m{i + 1}"
+        # a body that never logs does not ask for a CallContext at all
+        ctx_param, ctx_arg = (", *, ctx: CallContext", "ctx") if m["ilogs"] else ("", "None")
         if m["kind"] == "unary":
             ret = {"int": "int", "big": "str", "void": "None", "opt": "int | None"}[m["res"]]
             proto.append(f"    def {n}({sig}) -> {ret}: ...")
-            impl.append(f"    def {n}({sig}, *, ctx: CallContext) -> {ret}:\n        return _unary({sid}, x, tag, opt, ctx)")
+            impl.append(f"    def {n}({sig}{ctx_param}) -> {ret}:\n        return _unary({sid}, x, tag, opt, {ctx_arg})")
         else:
             base = "ProducerState" if m["kind"] == "prod" else "ExchangeState"
             st = "PState" if m["kind"] == "prod" else "XState"
+            if m.get("cs"):
+                st = f"{st} | {st}B"          # a union of state classes: the HTTP cursor token carries the class tag
             h = {"none": "", "full": ", Hdr", "empty": ", Hdr0"}[m["hdr"]]
             proto.append(f"    def {n}({sig}) -> Stream[{base}{h}]: ...")
-            impl.append(f"    def {n}({sig}, *, ctx: CallContext) -> Stream[{st}{h}]:\n        return _init({sid}, x, tag, opt, ctx)")
+            impl.append(f"    def {n}({sig}{ctx_param}) -> Stream[{st}{h}]:\n        return _init({sid}, x, tag, opt, {ctx_arg})")
     code = ("from typing import Protocol\n"
             "class C01Svc(Protocol):\n" + "\n".join(proto) + "\n"
             "class C01Impl:\n" + "\n".join(impl) + "\n")
     ns = {"Stream": Stream, "ProducerState": ProducerState, "ExchangeState": ExchangeState, "Hdr": Hdr, "Hdr0": Hdr0,
-          "CallContext": CallContext, "PState": PState, "XState": XState, "_unary": _unary, "_init": _init}
+          "CallContext": CallContext, "PState": PState, "XState": XState, "PStateB": PStateB, "XStateB": XStateB,
+          "_unary": _unary, "_init": _init}
     exec(compile(code, "<c01-program>", "exec"), ns)  # noqa: S102 - generated from the TLC-emitted program description
     return ns["C01Svc"], ns["C01Impl"](), code
 
@@ -443,7 +494,7 @@ SOCKETS = ("pipe", "unix", "tcp", "shm")
 LARGE_CAP = 8 * 1024 * 1024
 EXT_THRESHOLD = 64
 TINY_SLACK = 128
-SMALL_SHM = 65536 + 1024    # allocator header + ~1 KB of data: after a batch or two the rest falls back to the pipe
+SMALL_SHM = 65536 + 256     # allocator header + 256 bytes: a batch with rows does not fit, it falls back to the pipe
 DEFAULT_KNOBS = {"val": "full", "describe": False, "sockext": "off", "shmseg": "large", "sticky": False, "cache": "warm",
                  "level": 3, "extz": "none", "api": "iter", "cside": "both"}
 
